@@ -29,6 +29,16 @@ theorem table_wf : ∀ l ∈ BimgTables.layouts, (resolve l).any descOK = true :
 theorem rows_covered : ∀ r ∈ BimgTables.rows, r.layout < BimgTables.layouts.length := by
   decide +kernel
 
+/-- … hence every (family, revision, memory type) row of the bootable_image feature has a well-formed description -/
+theorem rows_wf : ∀ r ∈ BimgTables.rows, ∃ l d, BimgTables.layouts[r.layout]? = some l ∧ resolve l = some d ∧ descOK d = true := by
+  intro r hr
+  have h1 := rows_covered r hr
+  have hl : BimgTables.layouts[r.layout]? = some (BimgTables.layouts[r.layout]'h1) := List.getElem?_eq_getElem h1
+  have h2 := table_wf _ (List.getElem_mem h1)
+  cases hd : resolve (BimgTables.layouts[r.layout]'h1) with
+  | none => simp [hd] at h2
+  | some d => exact ⟨_, d, hl, hd, by simpa [hd] using h2⟩
+
 /-- the class constants the fixed-size parsers of the model rely on -/
 theorem kinds_fixed_sizes :
     ∀ k ∈ BimgTables.kinds, (parserOf k.parser = .imageVersionAp → k.size = 4) ∧
